@@ -230,6 +230,23 @@ fn compare<S: Mem>(s: &S, m: &BitModel) -> Option<(&'static str, String)> {
     if exp != want {
         return Some(("export_mismatch", format!("write_to_byte_slice gives {:02x?}, want {:02x?}", &exp[..nbytes.min(24)], &want[..nbytes.min(24)])));
     }
+    // a destination with room to spare (a caller's reusable buffer): the contents come first, and what follows
+    // them is either left alone or the zero tail of the storage - never anything else
+    let extra = [1usize, 5, 8, 12, 20][m.len() % 5];
+    let exp = s.export(nbytes + extra);
+    if exp[..nbytes] != want[..] || exp[nbytes..].iter().any(|b| *b != 0 && *b != 0xEE) {
+        return Some((
+            "export_mismatch",
+            format!(
+                "write_to_byte_slice into {} bytes for {} bytes of contents gives {:02x?} (tail {:02x?}), want {:02x?} followed by untouched (ee) or zero bytes",
+                nbytes + extra,
+                nbytes,
+                &exp[..nbytes.min(24)],
+                &exp[nbytes..],
+                &want[..nbytes.min(24)]
+            ),
+        ));
+    }
     let bs = s.bitstring();
     let eb = expected_bitstring(m, S::ELEM_BITS);
     if bs != eb {
